@@ -87,6 +87,11 @@ class Polytope:
         self.n_faces = self._initialize_from_simplex(simplex)
 
     def _initialize_from_simplex(self, simplex):
+        if np.dot(np.cross(simplex[1] - simplex[0], simplex[2] - simplex[0]),
+                  simplex[3] - simplex[0]) > 0.0:
+            # GJK returns simplices of both orientations. Face normals
+            # have to point away from the opposite vertex.
+            simplex = simplex[np.array((0, 2, 1, 3), dtype=int)]
         self.faces[0, :3] = simplex[:3]  # ABC
         self.faces[1, :3] = simplex[np.array((0, 2, 3), dtype=int)]  # ACD
         self.faces[2, :3] = simplex[np.array((0, 3, 1), dtype=int)]  # ADB
